@@ -1,6 +1,7 @@
 (** C18 — Printing is an idempotent, deterministic normal form; the AST stays untouched. *)
 From GoSh Require Import Print.Bufio.
 From GoSh Require Import Base.Bytes Base.Utf8 Expand.Expand Lex.Quote Lex.Reprint.
+From GoSh Require Lex.Reprint3.
 From Coq Require Import List.
 
 (** A writer that fails before the whole output has been accepted is reported by Fprint: the
@@ -33,3 +34,14 @@ Theorem C18_printed_word_is_a_fix_point :
     exists F w', scan_word F (print_parts w ++ rest) [] = Some (w', rest) /\ print_parts w' = print_parts w.
 Proof. exact print_scan_print. Qed.
 Print Assumptions C18_printed_word_is_a_fix_point.
+
+(** The same for words with parameter expansions, braced ones included (Lex/Reprint3.v): the printed
+    form, scanned and printed again, is the same text. *)
+Theorem C18_printed_word_with_expansions_is_a_fix_point :
+  forall f s w rest, Reprint3.scan_word3 f s [] = Some (w, rest) ->
+    exists F w', Reprint3.scan_word3 F (Reprint3.print_parts3 w ++ rest) [] = Some (w', rest) /\
+                 Reprint3.print_parts3 w' = Reprint3.print_parts3 w.
+Proof.
+  intros f s w rest H. destruct (Reprint3.scan_print_scan3 f s w rest H) as [F HF]. exists F, w. split; [exact HF|reflexivity].
+Qed.
+Print Assumptions C18_printed_word_with_expansions_is_a_fix_point.
